@@ -64,6 +64,24 @@ pub fn run(args: &Args) -> i32 {
             actors: vec![(2, Op::ReplaceV { frag: 1, ids: (6..12).collect(), salt: 99 })],
             strategy: StratSpec::ActorOrder(vec![1]),
         },
+        // sequential, stable row ids: index on id, partial update, update of every row, compaction
+        "rowid_wrong_row" => HistorySpec {
+            name: "probe-rowid-wrong-row".into(), stable_row_ids: stable, v2_manifest_paths: false, frags: 2, rows_per_frag: 10,
+            pre_ops: vec![
+                Op::CreateIndex { col: "id", name: "idx".into() },
+                Op::Update { pred: IdPred::In(vec![2, 4, 17]), add: 4, set_w: None, retries: None },
+                Op::Update { pred: IdPred::Range(0, i64::MAX), add: 1000, set_w: None, retries: None },
+            ],
+            actors: vec![(4, Op::Compact { defer_remap: false })],
+            strategy: StratSpec::ActorOrder(vec![1]),
+        },
+        // sequential, stable row ids: index on id, deferred-remap compaction, then indexed reads
+        "defer_stable_index" => HistorySpec {
+            name: "probe-defer-stable-index".into(), stable_row_ids: stable, v2_manifest_paths: false, frags: 3, rows_per_frag: 6,
+            pre_ops: vec![Op::CreateIndex { col: "id", name: "idx".into() }],
+            actors: vec![(2, Op::Compact { defer_remap: true })],
+            strategy: StratSpec::ActorOrder(vec![1]),
+        },
         _ => {
             eprintln!("unknown probe");
             return 2;
@@ -80,6 +98,13 @@ pub fn run(args: &Args) -> i32 {
             println!("FINDING {} :: {}", f.signature, f.what);
         }
         let reader = Actor::new(out.world.new_actor(0));
+        if sc.findings.is_empty() && args.extra.contains_key("aftermath") {
+            let (f, n) = aftermath(&out, &sc).await;
+            println!("aftermath rows compared {n}");
+            for f in f {
+                println!("FINDING {} :: {}", f.signature, f.what);
+            }
+        }
         if sc.findings.is_empty() {
             let ds = reader.open(&out.uri).await.unwrap();
             let (f, st) = check_index_coverage(&ds, &history_cause(&out), false).await.unwrap();
